@@ -17,7 +17,7 @@ MANIFEST = {
             "(4 precisions, 1-4 threads varying per call, system and user workspace, expert driver and p?gstrf_init/p?gstrf/?gstrs) "
             "against the library built from the current tree; after every call exact-rational oracles (|PrAPc-LU|<=gamma_n|L||U|, "
             "componentwise backward error), perm_r/usepr rule decided in exact arithmetic, checksums around FACTORED calls, and "
-            "K-exact comparison of the observable persistent record and state-dependent outputs with the extracted model.",
+            "K-exact comparison of the observable persistent record and state-dependent outputs with the extracted model.  Dynamic storage scheme: re-factorizations with the values and pivot rows of the first factorization must succeed (oracles only).",
     "technique": "machine-checked proof (Coq 8.16.1) + executed correspondence (extracted OCaml model vs C library)",
 }
 
